@@ -724,17 +724,17 @@ func toDecimal64(val interface{}) (float64, error) {
 	case uint16:
 		return float64(x), nil
 	case int:
-		return float64(x), nil
+		return int64ToFloat(int64(x))
 	case uint:
-		return float64(x), nil
+		return uint64ToFloat(uint64(x))
 	case int32:
 		return float64(x), nil
 	case uint32:
 		return float64(x), nil
 	case uint64:
-		return float64(x), nil
+		return uint64ToFloat(x)
 	case int64:
-		return float64(x), nil
+		return int64ToFloat(x)
 	case float32:
 		return float64(x), nil
 	case float64:
@@ -743,6 +743,21 @@ func toDecimal64(val interface{}) (float64, error) {
 		return strconv.ParseFloat(x, 64)
 	}
 	return 0, fmt.Errorf("cannot coerse '%T' to float64", val)
+}
+
+// int64ToFloat fails for integers a float64 cannot hold exactly (beyond 2^53).
+func int64ToFloat(x int64) (float64, error) {
+	if f := float64(x); f < 9223372036854775808.0 && int64(f) == x {
+		return f, nil
+	}
+	return 0, fmt.Errorf("cannot coerse %d to float64 without loss", x)
+}
+
+func uint64ToFloat(x uint64) (float64, error) {
+	if f := float64(x); f < 18446744073709551616.0 && uint64(f) == x {
+		return f, nil
+	}
+	return 0, fmt.Errorf("cannot coerse %d to float64 without loss", x)
 }
 
 func toDecimal64List(val interface{}) ([]float64, error) {
